@@ -551,7 +551,9 @@ def _strategy():
 
 
 def run(ctx):
-    ctx.hyp(_strategy, check_case, max_examples=ctx.pick(5000, 150000))
+    # several moderate Hypothesis runs instead of one huge one: per-example cost grows with the size of a run
+    for r in range(ctx.pick(1, 5)):
+        ctx.hyp(_strategy, check_case, max_examples=ctx.pick(5000, 24000), tag=f"r{r}" if r else "")
 
 
 def replay(case):
